@@ -9,9 +9,10 @@ from .poly import RatFunc
 class Session:
     """One evaluation session: a Ctx (atom table) + evaluator + reference DSL."""
 
-    def __init__(self, F, no_inline=(), app_canon=None, max_depth=8):
+    def __init__(self, F, no_inline=(), app_canon=None, max_depth=8, positive=()):
         self.F = F
         self.ctx = sym.Ctx(F)
+        self.ctx.positive = set(positive)
         self.ctx.no_inline = set(no_inline)
         self.ctx.app_canon = app_canon
         self.ctx.max_depth = max_depth
